@@ -14,7 +14,7 @@ from .c09 import diff_keys
 PROP = "C12"
 LEVEL = "fault_enumeration"
 EVAL_COUNTER = "injection"  # evaluations = injected faults
-N = {"quick": 1200, "thorough": 30000}
+N = {"quick": 2500, "thorough": 50000}
 RULE = ("seeded (instance, filter, observer set in seeded creation order incl. dependencies created before or after "
         "their dependants and observers created mid-history; or single / multi environment configuration) and seeded "
         "histories h1, h2; reset() injected after EVERY prefix of h1 (0..n, incl. the complete schedule, chained so "
